@@ -409,6 +409,7 @@ Proof.
   - unfold w_exit. destruct (lookup a (actors w)) as [x|]; [|exr].
     destruct (a_alive x), (a_stop x), (a_run x); try exr. apply actor_exit_EX.
   - apply (stop_actor_EX a w).
+  - exr.
   - unfold w_close. destruct (lookup a (actors w)) as [x|]; [|exr].
     destruct (a_alive x), (a_stop x), (a_run x); try exr. apply (actor_exit_EX a (CStopExit a) w).
   - unfold w_closed. destruct (lookup a (actors w)) as [x|]; [|exr].
